@@ -9,6 +9,24 @@ BASELINE = ("cd /repo && env -u PYCRAFT_VERIF /venv/bin/python -m pytest -ra -q 
             "--timeout=900 --continue-on-collection-errors")
 
 CHECKS = {
+    'C01': dict(
+        technique='TLA+ model of read_packet against arbitrary arrivals and cuts (Framing.tla) checked exhaustively by TLC; emitted '
+                  'behaviours concretised by an independent encoder and replayed through the real client (S->I); large seeded runs '
+                  'and every pair of cut positions of a short stream validated against the contract Trace_Framing.tla by TLC (I->S); '
+                  'write direction decoded by the independent peer',
+        text='Framing.tla models read_packet statement by statement (select, length VarInt byte by byte, body read and completion '
+             'loop, dispatch of known / unknown ids, decryptor feed) against arrivals of any size and end of stream at any offset; TLC '
+             'checks DeliveredIsPrefix, DispatchAtBoundary, NoPartialDelivery, UnknownSkippedWhole, DecryptOnceInOrder, bounded empty '
+             'reads and ReaderLeaves on all streams of <= 3 frames. Behaviours are concretised (known and unknown-id frames, 1- and '
+             '2-byte length prefixes, thresholds, cipher) and fed to the real client through the virtual socket with reads chopped at the '
+             'model\'s arrival offsets; seeded runs with payload sizes thr-1/thr/thr+1 up to 4 KiB, thresholds {off,0,1,64,256,1000}, '
+             'forced-compressed frames, cipher on/off and 1-byte / random / explicit-cut reads are judged read by read and delivery by '
+             'delivery by the contract. Queued and forced writes of the real client (and Packet.write with negative thresholds) must '
+             'be recovered exactly by the peer\'s own deframer / inflater / CFB8.',
+        note='Trusted: TLC, virtual socket layer, zlib, the peer codec (AES block from cryptography, checked by C18). The exact '
+             'compress-iff-larger-than-threshold rule is model-level (drift), the contract requires recoverability and no compressed '
+             'frame below the threshold.',
+        design='5/C01'),
     'C13': dict(
         technique='TLA+ model of listener dispatch (Dispatch.tla) explored exhaustively over listener configurations; a seeded sample '
                   'of behaviours replayed into a real Connection (S->I); larger random configurations validated by running the model '
